@@ -347,7 +347,7 @@ func runBounded(eng *Engine, prop, name, tier string, seed int) (string, string)
 		}
 		note := fmt.Sprintf("bounded stand-in %s (%s; bound: %s): %s in %.1fs [bounded, never counted as proved]", name, e.Test, e.Bound, cases, time.Since(t0).Seconds())
 		if strings.Contains(out, "BOUNDED-VIOLATION") || (err != nil && !strings.Contains(out, "BOUNDED-CASES")) {
-			dir := filepath.Join(eng.verif, "replays", prop)
+			dir := filepath.Join(outDir(eng), "replays", prop)
 			os.MkdirAll(dir, 0o755)
 			path := filepath.Join(dir, "bounded_"+sanitizeFile(name)+".json")
 			var keep []string
